@@ -29,6 +29,7 @@ func init() {
 			{Name: "sort-input-in-place", File: "guidedremediation/internal/vulns/vulns.go", Old: "			events := slices.Clone(r.Events)", New: "			events := r.Events", Rule: "D3-sorted-search", Site: "private-copy"},
 			{Name: "versions-list-only-without-ranges", File: "guidedremediation/internal/vulns/vulns.go", Old: "		if slices.Contains(affected.Versions, pkg.Version) {\n			return true\n		}\n", New: "		if len(affected.Ranges) == 0 && slices.Contains(affected.Versions, pkg.Version) {\n			return true\n		}\n", Rule: "D6-listed", Site: "IsAffected"},
 		},
+		Neutral: c18Neutral,
 	})
 }
 
